@@ -53,7 +53,19 @@ def seqFree (q : SeqSt) (id : Nat) (kill : Bool) : SeqSt × String :=
         else s!"free#{id} cn=ok" ++ exF q.s f.sz
       ({ q with s := s' }, line head q.s.heap s'.heap)
 
+/-- reusable / placement / buffer serve one frame at a time (the caller's contract); a request that breaks it — only
+shrinking produces one — is skipped by harness and driver alike -/
+def singleFrame (p : Policy) : Bool :=
+  match p with
+  | .reusable => true
+  | .placement _ => true
+  | .buffer _ => true
+  | _ => false
+
 def seqOp (q : SeqSt) (ws : List String) : SeqSt × String :=
+  if singleFrame q.s.cfg.pol && !q.s.frames.isEmpty && (ws.head? == some "alloc" || ws.head? == some "coro" || ws.head? == some "cdrop") then
+    (q, "skip")
+  else
   match ws with
   | ["alloc", k, sz] =>
       match k.toNat?, sz.toNat? with
@@ -88,7 +100,7 @@ def seqOp (q : SeqSt) (ws : List String) : SeqSt × String :=
   | [mv] =>
       -- moves of a plain `reusable_storage`: `mvctor` / `mvassign` are spellings of `moveOut`, `mvself` does nothing
       if q.s.cfg.pol == Policy.reusable && q.s.cfg.extra == 0 &&
-          (mv == "mvctor" || mv == "mvassign" || mv == "mvself" || mv == "swapobj") then
+          (mv == "mvctor" || mv == "mvassign" || mv == "mvself" || (mv == "swapobj" && q.s.frames.isEmpty)) then
         let s' := if mv == "mvself" then q.s else if mv == "swapobj" then (step q.s Op.swapobj).1 else (step q.s Op.moveOut).1
         ({ q with s := s' }, line s!"{mv} cap={s'.cap} ocap={s'.ocap}" q.s.heap s'.heap)
       else if mv == "newobj" then
